@@ -87,9 +87,10 @@ Section XaesProofs.
     assert (Hs : length salt = ss) by (unfold salt; rewrite firstn_length; lia).
     assert (Hi : length iv = 12%nat) by (unfold iv; rewrite skipn_length; lia).
     rewrite xaes_enc_eq by exact Hs. intros He.
-    pose proof (na_round_trip gcm_seal gcm_open 12 16 gcm_seal_max None _ _ _ _ _ _ _ HL HO
+    pose proof (na_round_trip gcm_seal gcm_open 12 16 gcm_seal_max None None _ _ _ _ _ _ _ HL HO
+                  (fun m (E : None = Some m) => ltac:(discriminate))
                   (fun m (E : None = Some m) => ltac:(discriminate)) Hi He) as Hd.
-    unfold na_dec_canon in Hd. unfold xaes_dec_canon.
+    unfold na_dec_canon, open_t in Hd. unfold xaes_dec_canon.
     rewrite app_length, Hs in Hd.
     destruct (Nat.leb_spec (length prefix + ss + 12 + 16) (length c)) as [Hc|Hc].
     2:{ destruct (Nat.leb_spec (length prefix + ss + 12 + 16) (length c)); [lia|]. discriminate. }
